@@ -1,35 +1,147 @@
-(* C05 - Streaming decoder: look-ahead soundness lemmas (partial)
+(* C05 - Streaming decoder equals one-shot decoder under every chunking
    This file only pins statements; the proofs live in the files named below. *)
 From LZ Require Import Base.Prelude Base.Prog Model.Io Model.Tables Model.LzBuffer Model.RangeDec Model.Lzma Format.RefEnc Proofs.Bound20 Proofs.Bound20Run Proofs.SymOracle Proofs.SymDecode.
 
 (* F4: with MAX_REQUIRED_INPUT = 20 bytes staged a symbol step cannot run out of input   [proved as run_sym_pos_20 in Proofs/Bound20Run.v] *)
-Theorem C05_partial_symbol_needs_at_most_20_bytes : forall upd (w : lw),
+Theorem C05_symbol_needs_at_most_20_bytes : forall upd (w : lw),
   T24 <= r_range (l_rc w) < T32 -> tabs_ok (ds_tabs (l_ds w)) ->
   s_pos (l_src (snd (run_sym upd w))) <= s_pos (l_src w) + MAX_REQUIRED_INPUT.
 Proof. exact run_sym_pos_20. Qed.
-Check C05_partial_symbol_needs_at_most_20_bytes : forall upd (w : lw),
+Check C05_symbol_needs_at_most_20_bytes : forall upd (w : lw),
   T24 <= r_range (l_rc w) < T32 -> tabs_ok (ds_tabs (l_ds w)) ->
   s_pos (l_src (snd (run_sym upd w))) <= s_pos (l_src w) + MAX_REQUIRED_INPUT.
-Print Assumptions C05_partial_symbol_needs_at_most_20_bytes.
+Print Assumptions C05_symbol_needs_at_most_20_bytes.
 
 (* the per-symbol operation budget is 23 probability-coded and 26 direct bits (22/26 as in the source comment is exceeded by slot-12/13 matches, which however carry no direct bits)   [proved as process_next_inner_bounded in Proofs/Bound20.v] *)
-Theorem C05_partial_20_is_needed_for_23_bit_paths : forall p y upd,
+Theorem C05_20_is_needed_for_23_bit_paths : forall p y upd,
   bounded 23 26 (process_next_inner p y upd).
 Proof. exact process_next_inner_bounded. Qed.
-Check C05_partial_20_is_needed_for_23_bit_paths : forall p y upd,
+Check C05_20_is_needed_for_23_bit_paths : forall p y upd,
   bounded 23 26 (process_next_inner p y upd).
-Print Assumptions C05_partial_20_is_needed_for_23_bit_paths.
+Print Assumptions C05_20_is_needed_for_23_bit_paths.
 
 (* F3 on the event level: the dry run (update = false) consumes exactly the events of the real run and changes nothing   [proved as process_next_inner_dry in Proofs/SymDecode.v] *)
-Theorem C05_partial_dry_run_consumes_the_same_events : forall w p fp st h s rest,
+Theorem C05_dry_run_consumes_the_same_events : forall w p fp st h s rest,
   props_match p fp -> st < 12 -> Forall (fun b => b < 256) (h_bytes h) -> rep0_ok w st h ->
   (s = EndMarker \/ exists h', sem_sym w h s = Some h') ->
   interp (oracle w) (process_next_inner p (mkSym st (reps_of h)) false) (fst (sym_evs fp st h s) ++ rest, h)
   = (Done (Continue, mkSym st (reps_of h)), (rest, h)).
 Proof. exact process_next_inner_dry. Qed.
-Check C05_partial_dry_run_consumes_the_same_events : forall w p fp st h s rest,
+Check C05_dry_run_consumes_the_same_events : forall w p fp st h s rest,
   props_match p fp -> st < 12 -> Forall (fun b => b < 256) (h_bytes h) -> rep0_ok w st h ->
   (s = EndMarker \/ exists h', sem_sym w h s = Some h') ->
   interp (oracle w) (process_next_inner p (mkSym st (reps_of h)) false) (fst (sym_evs fp st h s) ++ rest, h)
   = (Done (Continue, mkSym st (reps_of h)), (rest, h)).
-Print Assumptions C05_partial_dry_run_consumes_the_same_events.
+Print Assumptions C05_dry_run_consumes_the_same_events.
+
+From LZ Require Import Model.Stream Proofs.StreamSimAbs Proofs.StreamSimDry Proofs.StreamSimLoop Proofs.StreamSimData Proofs.StreamSimFull Proofs.StreamSimTotal.
+
+(* THE property: for every option set (allow_incomplete off), every sink, every non-empty input below 2^47 bytes and EVERY division into pieces (empty and single-byte pieces, cuts inside header / preamble / symbols), writing the pieces (re-offering what a write did not take) and finishing gives the same verdict as lzma_decompress on the concatenation and, on success, the identical sink   [proved as stream_equals_oneshot_every_chunking in Proofs/StreamSimTotal.v] *)
+Theorem C05_stream_equals_oneshot :
+  forall (o : options) (k : snk) (bs : list N) (pieces : list (list N)),
+  o_allow_incomplete o = false ->
+  Forall (fun b : N => b < 256) bs ->
+  bs <> [] ->
+  concat pieces = bs ->
+  nlen bs < 140737488355328 ->
+  same_verdict (fst (drive (stream_new o k) pieces))
+    (fst (lzma_decompress big_fuel o {| i_src := cursor_of bs; i_snk := k |})) /\
+  (fst (drive (stream_new o k) pieces) = Done tt ->
+   snd (drive (stream_new o k) pieces) =
+   i_snk (snd (lzma_decompress big_fuel o {| i_src := cursor_of bs; i_snk := k |}))).
+Proof. exact (@stream_equals_oneshot_every_chunking). Qed.
+Check C05_stream_equals_oneshot :
+  forall (o : options) (k : snk) (bs : list N) (pieces : list (list N)),
+  o_allow_incomplete o = false ->
+  Forall (fun b : N => b < 256) bs ->
+  bs <> [] ->
+  concat pieces = bs ->
+  nlen bs < 140737488355328 ->
+  same_verdict (fst (drive (stream_new o k) pieces))
+    (fst (lzma_decompress big_fuel o {| i_src := cursor_of bs; i_snk := k |})) /\
+  (fst (drive (stream_new o k) pieces) = Done tt ->
+   snd (drive (stream_new o k) pieces) =
+   i_snk (snd (lzma_decompress big_fuel o {| i_src := cursor_of bs; i_snk := k |}))).
+Print Assumptions C05_stream_equals_oneshot.
+
+(* the stated exception: zero total input finishes successfully with nothing written   [proved as stream_zero_input_finishes_ok in Proofs/StreamSimTotal.v] *)
+Theorem C05_zero_input_finishes_ok :
+  forall (o : options) (k : snk), stream_finish (stream_new o k) = (Done tt, k).
+Proof. exact (@stream_zero_input_finishes_ok). Qed.
+Check C05_zero_input_finishes_ok :
+  forall (o : options) (k : snk), stream_finish (stream_new o k) = (Done tt, k).
+Print Assumptions C05_zero_input_finishes_ok.
+
+(* the same up to 2^62 bytes, assuming the one-shot model run does not exhaust its loop fuel   [proved as stream_equals_oneshot in Proofs/StreamSimFull.v] *)
+Theorem C05_stream_equals_oneshot_modulo_fuel :
+  forall (o : options) (k : snk) (bs : list N) (pieces : list (list N)),
+  o_allow_incomplete o = false ->
+  is_byte_string bs ->
+  bs <> [] ->
+  concat pieces = bs ->
+  nlen bs < BIG ->
+  fst (lzma_decompress big_fuel o {| i_src := cursor_of bs; i_snk := k |}) <> Panicked (PFuel 10) ->
+  same_verdict (fst (drive (stream_new o k) pieces))
+    (fst (lzma_decompress big_fuel o {| i_src := cursor_of bs; i_snk := k |})) /\
+  (fst (drive (stream_new o k) pieces) = Done tt ->
+   snd (drive (stream_new o k) pieces) =
+   i_snk (snd (lzma_decompress big_fuel o {| i_src := cursor_of bs; i_snk := k |}))).
+Proof. exact (@stream_equals_oneshot). Qed.
+Check C05_stream_equals_oneshot_modulo_fuel :
+  forall (o : options) (k : snk) (bs : list N) (pieces : list (list N)),
+  o_allow_incomplete o = false ->
+  is_byte_string bs ->
+  bs <> [] ->
+  concat pieces = bs ->
+  nlen bs < BIG ->
+  fst (lzma_decompress big_fuel o {| i_src := cursor_of bs; i_snk := k |}) <> Panicked (PFuel 10) ->
+  same_verdict (fst (drive (stream_new o k) pieces))
+    (fst (lzma_decompress big_fuel o {| i_src := cursor_of bs; i_snk := k |})) /\
+  (fst (drive (stream_new o k) pieces) = Done tt ->
+   snd (drive (stream_new o k) pieces) =
+   i_snk (snd (lzma_decompress big_fuel o {| i_src := cursor_of bs; i_snk := k |}))).
+Print Assumptions C05_stream_equals_oneshot_modulo_fuel.
+
+(* F1: a decoding program whose run never saw the end of its input behaves identically when more input is appended   [proved as dec_h_prefix_stable in Proofs/StreamSimAbs.v] *)
+Theorem C05_prefix_stability :
+  forall (A : Type) (p : dprog A) (t : ptabs) (r : rc) (v : win) (bs more : list N),
+  nlen (bs ++ more) <= BIG ->
+  let w1 := {| d_tabs := t; d_rc := r; d_src := cursor_of bs; d_win := v |} in
+  let w2 := {| d_tabs := t; d_rc := r; d_src := cursor_of (bs ++ more); d_win := v |} in
+  fst (interp dec_h p w1) <> Failed EIo ->
+  s_rest (d_src (snd (interp dec_h p w1))) <> [] ->
+  fst (interp dec_h p w2) = fst (interp dec_h p w1) /\
+  d_tabs (snd (interp dec_h p w2)) = d_tabs (snd (interp dec_h p w1)) /\
+  d_rc (snd (interp dec_h p w2)) = d_rc (snd (interp dec_h p w1)) /\
+  d_win (snd (interp dec_h p w2)) = d_win (snd (interp dec_h p w1)) /\
+  s_pos (d_src (snd (interp dec_h p w2))) = s_pos (d_src (snd (interp dec_h p w1))) /\
+  s_rest (d_src (snd (interp dec_h p w2))) = s_rest (d_src (snd (interp dec_h p w1))) ++ more.
+Proof. exact (@dec_h_prefix_stable). Qed.
+Check C05_prefix_stability :
+  forall (A : Type) (p : dprog A) (t : ptabs) (r : rc) (v : win) (bs more : list N),
+  nlen (bs ++ more) <= BIG ->
+  let w1 := {| d_tabs := t; d_rc := r; d_src := cursor_of bs; d_win := v |} in
+  let w2 := {| d_tabs := t; d_rc := r; d_src := cursor_of (bs ++ more); d_win := v |} in
+  fst (interp dec_h p w1) <> Failed EIo ->
+  s_rest (d_src (snd (interp dec_h p w1))) <> [] ->
+  fst (interp dec_h p w2) = fst (interp dec_h p w1) /\
+  d_tabs (snd (interp dec_h p w2)) = d_tabs (snd (interp dec_h p w1)) /\
+  d_rc (snd (interp dec_h p w2)) = d_rc (snd (interp dec_h p w1)) /\
+  d_win (snd (interp dec_h p w2)) = d_win (snd (interp dec_h p w1)) /\
+  s_pos (d_src (snd (interp dec_h p w2))) = s_pos (d_src (snd (interp dec_h p w1))) /\
+  s_rest (d_src (snd (interp dec_h p w2))) = s_rest (d_src (snd (interp dec_h p w1))) ++ more.
+Print Assumptions C05_prefix_stability.
+
+(* F3: if the dry run (try_process_next) of a symbol succeeds, the real run on the same bytes does not run out of input   [proved as dry_run_ok_real_run_fed in Proofs/StreamSimDry.v] *)
+Theorem C05_dry_run_ok_implies_real_run_fed :
+  forall (p : props) (y : sym_st) (w : aw) (a : psym) (w' : aw),
+  a_rf w = false ->
+  interp ah (process_next_inner p y false) w = (Done a, w') ->
+  a_rf (snd (interp ah (process_next_inner p y true) w)) = false.
+Proof. exact (@dry_run_ok_real_run_fed). Qed.
+Check C05_dry_run_ok_implies_real_run_fed :
+  forall (p : props) (y : sym_st) (w : aw) (a : psym) (w' : aw),
+  a_rf w = false ->
+  interp ah (process_next_inner p y false) w = (Done a, w') ->
+  a_rf (snd (interp ah (process_next_inner p y true) w)) = false.
+Print Assumptions C05_dry_run_ok_implies_real_run_fed.
